@@ -186,6 +186,16 @@ P_C15L(pre, e) ==
           LET left == {o \in LeftLiveWhileIncomplete(pre, e.st) : Has(e.st.mkt, e.st.ord[o].mid)}
           IN Ck("C15", "RemovedOnlyAfterComplete", left = {}, left))
     /\ Ck("C15", "LiveInBlotter", LiveNotInBlotter(e.st) = {}, LiveNotInBlotter(e.st))
+    \* status filters return precisely the orders that satisfy them, whichever list the code serves them from
+    /\ \A mid \in DOMAIN e.st.flt : \A sn \in DOMAIN e.st.flt[mid] :
+          LET F == e.st.flt[mid][sn]
+              mine == {o \in DOMAIN e.st.ord : e.st.ord[o].mid = mid /\ e.st.ord[o].inbl /\ e.st.ord[o].strat = sn /\ e.st.ord[o].inst = e.st.instance}
+          IN Ck("C15", "FiltersExact",
+                /\ SeqToSet(F.all) = mine
+                /\ SeqToSet(F.livestatus) = {o \in mine : e.st.ord[o].status \in {"PENDING", "EXECUTABLE", "CANCELLING", "UPDATING", "REPLACING"}}
+                /\ SeqToSet(F.executable) = {o \in mine : e.st.ord[o].status = "EXECUTABLE"}
+                /\ SeqToSet(F.complete) = {o \in mine : e.st.ord[o].status = "COMPLETE"},
+                <<mid, sn, F>>)
 \* data for a closed market (a book, or a raw dict update with or without a definition) re-opens it with
 \* its cleared flags reset
 P_C20R(pre, e) ==
